@@ -12,7 +12,6 @@
    Fuel = number of loop-body executions allowed; running out of fuel is the distinct value
    [OutOfFuel] (the Python code would not return), `raise` is [Raised]. *)
 From Coq Require Import ZArith List Bool.
-From Coq Require Import Floats.PrimFloat.
 From MV Require Import Model.LoopNum Gen.GenLoop.
 Import ListNotations.
 
@@ -34,9 +33,9 @@ Definition c2 : TT := lofZ N 2.
 Definition c4 : TT := lofZ N 4.
 Definition c20 : TT := lofZ N 20.
 Definition sq (x : TT) : TT := x * x.                 (* x**2 : numpy squares *)
-Definition lit_1em6 : TT := llit N 1 (-6) 0x1.0c6f7a0b5ed8dp-20%float.            (* 1e-6 *)
-Definition lit_1em15 : TT := llit N 1 (-15) 0x1.203af9ee75616p-50%float.          (* 1e-15 *)
-Definition lit_4pi_inv : TT := llit N 7957747154594767 (-10) 0x1.848fd6e50b45cp+19%float.  (* 795774.7154594767 *)
+Definition lit_1em6 : TT := llit N 1 (-6) 4722366482869645 (-72).            (* 1e-6 *)
+Definition lit_1em15 : TT := llit N 1 (-15) 2535301200456459 (-101).          (* 1e-15 *)
+Definition lit_4pi_inv : TT := llit N 7957747154594767 (-10) 1708913188941079 (-31).  (* 795774.7154594767 *)
 
 Definition res_map {A B : Type} (f : A -> B) (r : res A) : res B :=
   match r with Done n v => Done n (f v) | OutOfFuel => OutOfFuel | Raised => Raised end.
